@@ -60,8 +60,8 @@ JudgeC09 == IF Expect = 1 \/ HasBom THEN <<>>
 TEnd == /\ c <= N /\ (i > Len(Trace[c].b) \/ Dead(st))
         /\ c' = c + 1 /\ i' = 1 /\ st' = S0 /\ errAt' = 0 /\ pre' = S0 /\ ln' = 1 /\ nl' = 0 /\ UNCHANGED hist
         /\ LET j == IF Mode = "c01" THEN JudgeC01 ELSE JudgeC09 IN
-           /\ (j = <<>> \/ Len(TLCGet(1)) >= MaxBad \/ TLCSet(1, TLCGet(1) \o j))
-           /\ (j = <<>> \/ TLCSet(3, TLCGet(3) + Len(j)))
+           /\ (IF j = <<>> \/ Len(TLCGet(1)) >= MaxBad THEN TRUE ELSE TLCSet(1, TLCGet(1) \o j))
+           /\ (IF j = <<>> THEN TRUE ELSE TLCSet(3, TLCGet(3) + Len(j)))
         /\ TLCSet(2, c)
 
 TraceNext == TFeed \/ TEnd
